@@ -1,0 +1,23 @@
+//go:build verif
+
+package keeper
+
+// Contracts for the deductive verifier in /verif (govc). Comment-only; compiled only with -tags verif.
+
+//@ spec func received1(S KV, ord int, P string, C string, s int) bool = (ord == types.UNORDERED && get(S, host.PacketReceiptKey(P, C, s)) != "") || (ord == types.ORDERED && get(S, host.NextSequenceRecvKey(P, C)) != "" && s < unbe64(get(S, host.NextSequenceRecvKey(P, C))))
+
+//@ contract (*Keeper).applyReplayProtection
+//@   let P = packet.DestinationPort
+//@   let C = packet.DestinationChannel
+//@   let s = packet.Sequence
+//@   let S0 = store(ctx)
+//@   let ord = channel.Ordering
+//@   modifies world(ctx)
+//@   ensures unordered_ok: err == nil && ord == types.UNORDERED ==> get(S0, host.PacketReceiptKey(P, C, s)) == "" && store(ctx) == set(S0, host.PacketReceiptKey(P, C, s), str(1))
+//@   ensures ordered_ok: err == nil && ord == types.ORDERED ==> get(S0, host.NextSequenceRecvKey(P, C)) != "" && unbe64(get(S0, host.NextSequenceRecvKey(P, C))) == s && store(ctx) == set(S0, host.NextSequenceRecvKey(P, C), be64((s + 1) % 18446744073709551616))
+//@   ensures ok_ordering: err == nil ==> ord == types.UNORDERED || ord == types.ORDERED
+//@   ensures fail_unchanged: err != nil ==> world(ctx) == old(world(ctx))
+//@   ensures noop_received: err == types.ErrNoOpMsg ==> received1(S0, ord, P, C, s)
+//@   ensures ok_fresh: err == nil ==> !received1(S0, ord, P, C, s)
+//@   ensures ok_received: err == nil && s + 1 < 18446744073709551616 ==> received1(store(ctx), ord, P, C, s)
+//@   ensures only_store: err == nil ==> world(ctx) == withKV(old(world(ctx)), k.storeService, store(ctx))
